@@ -163,8 +163,9 @@ func (l *Lexer) readNumber() (string, token.Type) {
 		l.ReadChar()
 	}
 
-	// Check if it's a decimal number
-	if l.CurrentChar == '.' && isDigit(l.PeekChar()) {
+	// A '.' after the integer digits belongs to the numeral, with or without fraction
+	// digits (1.5, 1., 1.e3), as in JavaScript
+	if l.CurrentChar == '.' {
 		tokenType = token.FLOAT
 		l.ReadChar() // consume the '.'
 		for isDigit(l.CurrentChar) {
